@@ -42,11 +42,21 @@ def nontrivial(spec):
 
 
 def fock_ok(spec):
-    return spec["n"] <= 3 and not any(o["cls"] == "ThermalLossChannel" for o in spec["ops"])
+    alive = peak = spec["n"]
+    for o in spec["ops"]:
+        if o["cls"] == "New":
+            alive += len(o["regs"])
+        elif o["cls"] == "Del":
+            alive -= len(o["regs"])
+        peak = max(peak, alive)
+    return peak <= 3 and not any(o["cls"] in ("ThermalLossChannel", "PassiveChannel", "Gaussian") for o in spec["ops"])
 
 
-def fock_delta(sf, spec, refm, cutoff, pure):
-    st, _ = sim.run_spec(sf, spec, "fock", cutoff_dim=cutoff, pure=pure)
+def fock_delta(sf, spec, refm, cutoff, pure, cache=None, sel=None):
+    if sel is None:
+        st, _ = sim.run_spec(sf, spec, "fock", cutoff_dim=cutoff, pure=pure, op_cache=cache)
+    else:
+        st, _ = sim.run_spec(sf, spec, "fock", cutoff_dim=cutoff, pure=pure, op_cache=cache, modes=sel)
     a, N, M, tr = sim.moments_fock(st)
     return sim.moment_dist(refm, (a, N, M)), 1 - tr
 
@@ -65,14 +75,30 @@ def check_program(ctx, sf, spec, fock=True, cutoff=9):
 def _check_program(ctx, sf, spec, fock=True, cutoff=9):
     """run one program everywhere; ctx.fail on a disagreement.  Returns nothing."""
     ref = sim.reference(spec, sf.hbar)
-    refm = ref.alpha_N_M()
+    refm = sim.restrict_moments(ref.alpha_N_M(), ref.active)     # back ends return the active modes in index order
     rp = dict(kind="program", spec=spec, hbar=sf.hbar)
+    # half of the runs share Operation instances between equal operations (and across the back ends of this program)
+    cache = {} if ctx.oracle_cases % 2 == 0 else None
+    # a third of the runs request a subset of the modes in an arbitrary (also cyclic) order: run option `modes=[...]`
+    sel = None
+    if ctx.oracle_cases % 3 == 1 and len(ref.active) >= 2:
+        k = ctx.rng.randint(2, len(ref.active))
+        sel = ctx.rng.sample(ref.active, k)          # subsystem indices (documented: "modes=[3,0] ... subsystem 3, subsystem 0")
+        refm = sim.restrict_moments(ref.alpha_N_M(), sel)
+        rp["modes"] = sel
+        ctx.tally("state-modes:%s" % ("ascending" if sel == sorted(sel) else "unsorted"))
     ctx.oracle_cases += 1
     results = {}
     for be in ("gaussian", "bosonic"):
         try:
-            st, _ = sim.run_spec(sf, spec, be)
+            if sel is None:
+                st, _ = sim.run_spec(sf, spec, be, op_cache=cache)
+            else:   # the bosonic back end documents that it returns the requested modes in ascending order
+                st, _ = sim.run_spec(sf, spec, be, op_cache=cache, modes=sel if be == "gaussian" else sorted(sel))
             m = sim.moments_gaussian(st, sf.hbar) if be == "gaussian" else sim.moments_bosonic(st, sf.hbar)
+            if sel is not None and be == "bosonic":
+                pos = [sorted(sel).index(x) for x in sel]
+                m = sim.restrict_moments(m, pos)
         except Exception as e:  # noqa: BLE001
             if type(e).__name__ in ("CircuitError", "NotImplementedError"):
                 ctx.tally(f"not-accepted:{be}")       # the property speaks about programs a back end accepts
@@ -92,14 +118,14 @@ def _check_program(ctx, sf, spec, fock=True, cutoff=9):
     if fock and fock_ok(spec):
         for pure in (True, False):
             try:
-                d, loss = fock_delta(sf, spec, refm, cutoff, pure)
+                d, loss = fock_delta(sf, spec, refm, cutoff, pure, cache, sel)
             except Exception as e:  # noqa: BLE001
                 ctx.fail(f"fock-raises:{type(e).__name__}", f"fock back end (pure={pure}) raised {type(e).__name__}: {e}", rp)
                 continue
             ctx.tally("fock-runs")
             if d > 5 * cutoff * loss + 1e-6:
                 ctx.tally("fock-escalations")
-                d2, loss2 = fock_delta(sf, spec, refm, cutoff + 6, pure)
+                d2, loss2 = fock_delta(sf, spec, refm, cutoff + 6, pure, None, sel)
                 if d2 > max(1e-5, d / 2) and d2 > 5 * (cutoff + 6) * loss2 + 1e-6:
                     ctx.fail(f"fock-{'pure' if pure else 'mixed'}-vs-reference:{culprit(sf, spec, 'fock', pure)}",
                              f"fock back end (pure={pure}) differs from the phase-space calculation by {d:.3g} at cutoff "
@@ -183,7 +209,8 @@ def culprit(sf, spec, backend, pure=True):
     try:
         for k in range(1, len(spec["ops"]) + 1):
             sub = dict(n=spec["n"], ops=spec["ops"][:k])
-            refm = sim.reference(sub, sf.hbar).alpha_N_M()
+            r = sim.reference(sub, sf.hbar)
+            refm = sim.restrict_moments(r.alpha_N_M(), r.active)
             if backend == "fock":
                 d, loss = fock_delta(sf, sub, refm, 12, pure)
                 bad = d > 5 * 12 * loss + 1e-5
@@ -231,14 +258,24 @@ def run(ctx, sf):
         if rng.random() < 0.5 and n >= 2:      # make sure spectators are in a correlated state first
             spec["ops"] = sim.correlated_prefix(rng, n) + spec["ops"][:4]
         fock = (it % 3 != 2) if ctx.tier == "quick" else True
+        if it % 7 == 2:                 # near-duplicate, unrounded parameters (a stale or coarsely keyed cache would mix them up)
+            for o in list(spec["ops"]):
+                if o["cls"] in ("Sgate", "BSgate", "Rgate", "Dgate", "S2gate") and o["pars"]:
+                    twin = copy.deepcopy(o)
+                    twin["pars"][0] = o["pars"][0] + rng.choice([1e-4, 3e-5, -2e-4]) * (1 + rng.random())
+                    spec["ops"].append(twin)
+                    break
         if it % 4 == 1:     # natively applied multi-mode operations of the phase-space back ends (mode lists in any order)
             extra = sim.rand_passive_op(rng, nprng, n) if it % 8 == 1 else sim.rand_gaussian_prep_op(rng, nprng, n)
             spec["ops"].insert(rng.randint(0, len(spec["ops"])), extra)
             fock = False
+        if it % 5 == 3 and n >= 2:      # registers with holes / late modes (index != position), inserted last
+            spec = progs.with_del_new(rng, spec, p_del=1.0, p_new=0.5)
+            spec["ops"] = [o for o in spec["ops"] if o["cls"] != "MeasureFock"]
         ctx.count("program:n=%d" % n, spec, nontrivial(spec), sample=spec)
         for o in spec["ops"]:
             ctx.tally("op:" + o["cls"] + (".H" if o.get("dagger") else ""))
-        check_program(ctx, sf, spec, fock=fock and n <= 3)
+        check_program(ctx, sf, spec, fock=fock)
     for it in range(ctx.n(30, 300)):
         spec = rand_fock_program(rng, rng.choice([1, 2, 2, 3]))
         ctx.count("fock-pure-vs-mixed", spec, nontrivial(spec) or spec["n"] >= 2)
@@ -270,6 +307,6 @@ def replay(ctx, rp):
     elif rp.get("kind") == "bosonic-vs-fock":
         check_bosonic_vs_fock(ctx, sf, rp["spec"])
     else:
-        check_program(ctx, sf, rp["spec"])
+        check_program(ctx, sf, rp["spec"])      # (a `modes` selection is re-drawn from the same PRNG state)
     sf.hbar = 2
     return len(ctx.failures) > n0
